@@ -481,6 +481,10 @@ def one_system(ctx, d, usable, shape, seed_tag, tight=False, only=None, data=Non
     if data is None:
         W = random_weights(ctx.rng, nf)
         systems = [random_rhs(ctx.rng, nf, nc) for _ in range(3)]
+        # the system is homogeneous (full_system_homogeneous): the same kind of right-hand side at physically small and
+        # large magnitudes (powers of two: exact scaling) must be solved to the same RELATIVE accuracy
+        systems[1] = systems[1] * 2.0 ** -40
+        systems[2] = systems[2] * 2.0 ** 20
         W2 = random_weights(ctx.rng, nf)
         data = (W, systems, W2)
     W, systems, W2 = data
@@ -601,7 +605,7 @@ def distance_oracle(ctx, d, usable, shape):
         ctx.cov.setdefault("distance_spread", []).append(max(vals.values()) - min(vals.values()))
 
 
-def schedule_oracle(ctx, d, usable, shape, L, every, num_iter):
+def schedule_oracle(ctx, d, usable, shape, L, every, num_iter, scale=1.0):
     """End-to-end Bregman runs whose `bregman_update` fires at iterations > 0 (the regularisation, hence the matrix, changes
     in the middle of the run; tolerances 0 so that the run gets there): every solution returned by the inner `linear_solve`
     must solve the (matrix, rhs) it was handed, and the distance must not depend on formulation / back-end."""
@@ -610,9 +614,10 @@ def schedule_oracle(ctx, d, usable, shape, L, every, num_iter):
     m1 = rng_np.uniform(0.2, 1.0, size=shape)
     m2 = rng_np.uniform(0.2, 1.0, size=shape)
     m2 *= m1.sum() / m2.sum()
+    m1, m2 = m1 * scale, m2 * scale  # physically small masses: the distance is homogeneous of degree one in the masses
     dims = [0.5 * n for n in shape]
     vals = {}
-    rp0 = {"kind": "schedule", "shape": list(shape), "L": L, "every": every, "num_iter": num_iter}
+    rp0 = {"kind": "schedule", "shape": list(shape), "L": L, "every": every, "num_iter": num_iter, "scale": scale}
     for (f, s), ok in usable.items():
         if not ok:
             continue
@@ -722,8 +727,9 @@ def oracle(ctx, d, voc, construct, accept):
                 ctx.fail(x["sig"], x["what"], {"kind": "system", "shape": list(shape), "pair": x.get("pair"), "seed": ctx.seed,
                                                "detail": {k: v for k, v in x.items() if k not in ("sig", "what")}})
     # (3) end-to-end: regularisation updates in the middle of a Bregman run (cached solver must be rebuilt)
-    for shape, L, every, n in [((5, 4), 1.0, 3, 7), ((3, 4), 0.5, 2, 5)] + ([((6, 5), 1.0, 5, 11), ((3, 3, 2), 2.0, 3, 7), ((7,), 0.1, 2, 6)] if ctx.big else []):
-        schedule_oracle(ctx, d, usable, shape, L, every, n)
+    for shape, L, every, n, sc in [((5, 4), 1.0, 3, 7, 1.0), ((3, 4), 0.5, 2, 5, 2.0 ** -40)] + (
+            [((6, 5), 1.0, 5, 11, 1.0), ((3, 3, 2), 2.0, 3, 7, 2.0 ** -30), ((7,), 0.1, 2, 6, 2.0 ** 20)] if ctx.big else []):
+        schedule_oracle(ctx, d, usable, shape, L, every, n, sc)
     # (4) end-to-end distance (Newton)
     for shape in [(4, 5), (3,)] + ([(3, 2, 2), (6, 6)] if ctx.big else []):
         distance_oracle(ctx, d, usable, shape)
@@ -803,7 +809,7 @@ def replay(data):
         voc = vocabulary(d)
         construct, accept = tabulate(d, voc)
         usable = {p: (v == "ok") for p, v in accept.items()}
-        schedule_oracle(ctx, d, usable, tuple(rp["shape"]), rp["L"], rp["every"], rp["num_iter"])
+        schedule_oracle(ctx, d, usable, tuple(rp["shape"]), rp["L"], rp["every"], rp["num_iter"], rp.get("scale", 1.0))
         for f in ctx.failures:
             print("observed :", f["signature"], "--", f["what"])
         print("required : every inner linear_solve solves the system it is handed; the distance is the same for every formulation x back-end")
